@@ -217,7 +217,10 @@ func Universe() []UVal {
 		rawU("*struct", func() any { return &dataStruct{Title: "P", Count: 4} }),
 		rawU("(*struct)(nil)", func() any { var p *dataStruct; return p }),
 		rawU("struct{ptr,map}", func() any { i := 7; return ptrStruct{A: 1, P: &i, M: map[string]int{"a": 1}} }),
-		rawU("struct{ptr,unexported map}", func() any { n := "x"; return hiddenMapStruct{Name: &n, tags: map[string]int{"a": 1, "b": 2}, list: []any{1, "x"}} }),
+		rawU("struct{ptr,unexported map}", func() any {
+			n := "x"
+			return hiddenMapStruct{Name: &n, tags: map[string]int{"a": 1, "b": 2}, list: []any{1, "x"}}
+		}),
 		rawU("struct{any:map}", func() any { return anyStruct{Name: "home", Data: map[string]any{"k": []any{1}}} }),
 		rawU("struct{any:slice}", func() any { return anyStruct{Name: "home", Data: []any{1, "x"}} }),
 		rawU("[]*int", func() any { a, b := 1, 2; return []*int{&a, &b, nil} }),
